@@ -50,7 +50,8 @@ fn main() {
             args[2].parse().unwrap(),
             args[3].parse().unwrap(),
             args[4].parse().unwrap(),
-            args.get(5).map(|s| s.as_str()),
+            args.get(5).map(|s| s.as_str()).filter(|s| *s != "-"),
+            args.get(6).map(|s| s == "seq").unwrap_or(false),
         ),
         "build-bench" => threadsim::build_bench(),
         "tgen" if args.len() >= 5 => {
